@@ -59,3 +59,23 @@ Definition locality : Prop :=
   (forall n o e1 l, origin_at g n = Some o -> out_links g n = e1 :: l -> origin_eq n ->
      spec_w_next U P st o (e_link e1) = spec_w_next U P st' o (e_link e1)).
 End C10.
+
+(* the same on the element-layer MODEL (the regenerated engines): two steps of a valid network from states
+   that agree on the neighbourhood of a segment return the same value for that segment *)
+From SM Require Import Engine Blocks Validity.
+From SM.specs Require Import GraphWF C01_spec.
+Definition model_locality (E : engine R) : Prop :=
+  forall U (P : params R) g (st st' : state R),
+    wf_graph g -> validb U g = true ->
+    (forall e, In e (g_edges g) -> wf_link U st (e_link e)) ->
+    (forall e, In e (g_edges g) -> wf_link U st' (e_link e)) ->
+    (forall e, In e (g_edges g) -> lp P (e_link e) Pturn <> 0) ->
+    (forall e, In e (g_edges g) -> lp P (e_link e) Prhocrit <> 0) ->
+    exists out out',
+      network_step E U P g no_options st = Ok out /\
+      network_step E U P g no_options st' = Ok out' /\
+      forall e r r', In (e, r) (combine (links g) (o_links out)) ->
+                     In (e, r') (combine (links g) (o_links out')) ->
+        forall i, (i < lN (linkd U (e_link e)))%nat ->
+          (nb_rho U g st st' e i -> nth i (fst (snd r)) 0 = nth i (fst (snd r')) 0) /\
+          (nb_v U g st st' e i -> nth i (snd (snd r)) 0 = nth i (snd (snd r')) 0).
